@@ -38,30 +38,9 @@ func rootIdent(e ast.Expr) string {
 	}
 }
 
+// skeleton: the flat skeleton (see skel.go) with the root identifiers of interest for x/lockup.
 func skeleton(p *pkgSrc, fn *ast.FuncDecl) []string {
-	var out []string
-	ast.Inspect(fn.Body, func(n ast.Node) bool {
-		switch x := n.(type) {
-		case *ast.IfStmt:
-			out = append(out, "if "+exprText(p.fset, x.Cond))
-		case *ast.AssignStmt:
-			// field updates of the lock object: lock.EndTime = …, lock.Coins = …, lock.Duration = …
-			if len(x.Lhs) == 1 && len(x.Rhs) == 1 {
-				if sel, ok := x.Lhs[0].(*ast.SelectorExpr); ok && rootIdent(sel) == "lock" {
-					out = append(out, "set "+exprText(p.fset, sel)+" = "+exprText(p.fset, x.Rhs[0]))
-				}
-			}
-		case *ast.CallExpr:
-			if sel, ok := x.Fun.(*ast.SelectorExpr); ok {
-				r := rootIdent(sel)
-				if r == "k" || r == "server" || r == "keeper" {
-					out = append(out, "call "+exprText(p.fset, sel))
-				}
-			}
-		}
-		return true
-	})
-	return out
+	return skeletonRoots(p, fn, skelRoots{calls: rootSet("k", "server", "keeper"), sets: rootSet("lock")})
 }
 
 func leanStrList(xs []string) string {
